@@ -316,10 +316,9 @@ class SpooledBytesIO(SpooledIOBase):
 
     def readline(self, length=None):
         self._checkClosed()
-        if length:
-            return self.buffer.readline(length)
-        else:
+        if length is None or length < 0:
             return self.buffer.readline()
+        return self.buffer.readline(length)
 
     def readlines(self, sizehint=0):
         return self.buffer.readlines(sizehint)
@@ -456,6 +455,8 @@ class SpooledStringIO(SpooledIOBase):
 
     def readline(self, length=None):
         self._checkClosed()
+        if length == 0:
+            return ''  # (the codecs reader takes 0 for "no limit")
         ret = self.buffer.readline(length).decode('utf-8')
         self._tell = self.tell() + len(ret)
         return ret
